@@ -310,9 +310,16 @@ pub fn role(kind: usize, seed: u64, record_use: bool) -> u64 {
 pub fn schedule(seed: u64) -> Vec<(usize, u64, u64)> {
     let mut rng = Rng::new(seed);
     let threads = rng.range(2, 16);
+    // aimed bursts: every thread runs the same kind of role (so that all of
+    // them reach the same table first), each with its own data
+    let one_kind = match burst_mode(seed) {
+        Burst::Aimed { .. } => Some(*Rng::new(seed ^ 0xA1).pick(&[0usize, 1, 2, 3, 6, 7, 8])),
+        _ => None,
+    };
     (0..threads)
         .map(|_| {
             let kind = rng.below(N_ROLES);
+            let kind = one_kind.unwrap_or(kind);
             let role_seed = rng.next_u64();
             // stagger after the barrier, in microseconds
             let stagger = match rng.below(4) {
@@ -325,9 +332,68 @@ pub fn schedule(seed: u64) -> Vec<(usize, u64, u64)> {
         .collect()
 }
 
+/// How the threads of a schedule are released after the barrier.
+/// *Staggered*: each sleeps its own 0-2 ms. *Burst*: thread 0 starts at once
+/// (and becomes the initialiser of whatever its role touches first); all
+/// others spin until a common instant 20 us - 4 ms later and start together.
+/// *Aimed*: the others spin until the event log (hook H3) shows that the
+/// initialisation of table `table` has begun, wait `permille`/1000 of the
+/// time that initialisation took in earlier children of this run (passed in
+/// by the parent), and start together - a crowd arriving while, or just
+/// when, an initialisation completes. Sleeping staggers (tens of
+/// microseconds of jitter, one thread at a time) practically never do that.
+#[derive(Clone, Copy, Debug, PartialEq)]
+pub enum Burst {
+    Staggered,
+    Random { delay_ns: u64 },
+    Aimed { table: u64, permille: u64 },
+}
+
+pub fn burst_mode(seed: u64) -> Burst {
+    let mut rng = Rng::new(seed ^ 0xB0257);
+    match rng.below(4) {
+        0 => {
+            // log-uniform
+            let lo = (20_000f64).ln();
+            let hi = (4_000_000f64).ln();
+            let u = rng.below(1 << 20) as f64 / (1u64 << 20) as f64;
+            Burst::Random { delay_ns: (lo + (hi - lo) * u).exp() as u64 }
+        }
+        1 | 2 => Burst::Aimed { table: rng.below(5) as u64, permille: rng.range(850, 1030) as u64 },
+        _ => Burst::Staggered,
+    }
+}
+
+fn spin_until(t: Instant) {
+    while Instant::now() < t {
+        std::hint::spin_loop();
+    }
+}
+
+/// first time the event log shows (table, kind); None after `patience`
+fn wait_for_event(table: u64, kind: u64, patience: Duration) -> Option<Instant> {
+    let t0 = Instant::now();
+    loop {
+        if hooks::table_events().iter().any(|e| e.0 == table && e.1 == kind) {
+            return Some(Instant::now());
+        }
+        if t0.elapsed() > patience {
+            return None;
+        }
+        std::hint::spin_loop();
+    }
+}
+
 /// Child process: run one schedule, print digests and the event log.
 pub fn child(seed: u64) {
     let sched = schedule(seed);
+    let burst = burst_mode(seed);
+    // build times of the five tables seen in earlier children (ns; 0 = unknown)
+    let hints: Vec<u64> = std::env::var("RSMON_C16_BUILD_NS")
+        .ok()
+        .map(|v| v.split(',').map(|x| x.parse().unwrap_or(0)).collect())
+        .unwrap_or_default();
+    let running = Arc::new(std::sync::atomic::AtomicUsize::new(sched.len()));
     let barrier = Arc::new(Barrier::new(sched.len()));
     let handles: Vec<_> = sched
         .iter()
@@ -335,16 +401,57 @@ pub fn child(seed: u64) {
         .enumerate()
         .map(|(i, (kind, role_seed, stagger))| {
             let b = barrier.clone();
+            let running = running.clone();
+            let hint = match burst {
+                Burst::Aimed { table, .. } => hints.get(table as usize).copied().unwrap_or(0),
+                _ => 0,
+            };
             std::thread::spawn(move || {
                 b.wait();
-                if stagger > 0 {
-                    std::thread::sleep(Duration::from_micros(stagger));
+                match burst {
+                    Burst::Random { delay_ns } if i > 0 => spin_until(Instant::now() + Duration::from_nanos(delay_ns)),
+                    Burst::Aimed { table, permille } if i > 0 => {
+                        // without a hint (first children of a run) just follow the beginning
+                        if let Some(t) = wait_for_event(table, EV_BEGIN, Duration::from_millis(20)) {
+                            spin_until(t + Duration::from_nanos(hint * permille / 1000));
+                        }
+                    }
+                    Burst::Staggered if stagger > 0 => std::thread::sleep(Duration::from_micros(stagger)),
+                    _ => {}
                 }
                 let r = crate::util::guarded(|| role(kind, role_seed, true));
+                running.fetch_sub(1, Ordering::SeqCst);
                 (i, kind, r)
             })
         })
         .collect();
+    // the main thread watches the event log and times every initialisation
+    // it sees from beginning to end (for the parent's hints to later children)
+    if hooks::armed() {
+        let mut begun: [Option<Instant>; 5] = [None; 5];
+        let mut took: [u64; 5] = [0; 5];
+        // (bounded: a stuck child must end up with every thread asleep,
+        // which is what the parent's deadlock verdict looks for)
+        let watch_until = Instant::now() + Duration::from_millis(300);
+        while running.load(Ordering::SeqCst) > 0 && Instant::now() < watch_until {
+            let now = Instant::now();
+            for (t, k, _) in hooks::table_events() {
+                let t = t as usize;
+                if t < 5 {
+                    if k == EV_BEGIN && begun[t].is_none() {
+                        begun[t] = Some(now);
+                    }
+                    if k == EV_END && took[t] == 0 {
+                        if let Some(b) = begun[t] {
+                            took[t] = (now - b).as_nanos().max(1) as u64;
+                        }
+                    }
+                }
+            }
+            std::hint::spin_loop();
+        }
+        println!("build_ns {}", took.iter().map(u64::to_string).collect::<Vec<_>>().join(","));
+    }
     for h in handles {
         match h.join() {
             Ok((i, kind, Ok(d))) => println!("role {i} {kind} {d}"),
@@ -915,7 +1022,7 @@ pub fn run(cfg: &RunCfg, agg: &Mutex<Agg>) {
         run_schedules(cfg, agg, &[cs]);
         return;
     }
-    let n = crate::count(cfg, 60, 1200);
+    let n = crate::count(cfg, 120, 2400);
     let base = mix(cfg.seed, 0xC16);
     let seeds: Vec<u64> = (0..n).map(|i| mix(base, i)).collect();
     run_schedules(cfg, agg, &seeds);
@@ -930,11 +1037,14 @@ fn run_schedules(cfg: &RunCfg, agg: &Mutex<Agg>, seeds: &[u64]) {
         .collect();
     let next = AtomicU64::new(0);
     let deadlocks = AtomicU64::new(0);
+    // build time of each table, as timed by the children so far (ns, last few)
+    let build_ns: Mutex<[Vec<u64>; 5]> = Mutex::new(Default::default());
     let signatures: Mutex<BTreeSet<String>> = Mutex::new(BTreeSet::new());
     let first_initialisers: Mutex<BTreeSet<String>> = Mutex::new(BTreeSet::new());
     // a child uses up to 16 threads itself; keep a few children in flight so
     // that the machine is loaded (more schedule diversity) but not swamped
-    let parallel = (cfg.threads / 4).max(1);
+    // (bursts spin: more than two children at a time would starve each other)
+    let parallel = (cfg.threads / 8).max(1);
     std::thread::scope(|s| {
         for _ in 0..parallel {
             s.spawn(|| loop {
@@ -952,8 +1062,20 @@ fn run_schedules(cfg: &RunCfg, agg: &Mutex<Agg>, seeds: &[u64]) {
                     sched.len(),
                     sched.iter().map(|s| ROLE_NAMES[s.0]).collect::<Vec<_>>()
                 );
+                let hints: Vec<String> = build_ns
+                    .lock()
+                    .unwrap()
+                    .iter()
+                    .map(|v| {
+                        // median of the last measurements
+                        let mut w: Vec<u64> = v.iter().rev().take(9).copied().collect();
+                        w.sort_unstable();
+                        w.get(w.len() / 2).copied().unwrap_or(0).to_string()
+                    })
+                    .collect();
                 let mut child = match Command::new(&exe)
                     .args(["C16CHILD", "--case", &seed.to_string()])
+                    .env("RSMON_C16_BUILD_NS", hints.join(","))
                     .stdout(Stdio::piped())
                     .stderr(Stdio::piped())
                     .spawn()
@@ -1038,6 +1160,17 @@ fn run_schedules(cfg: &RunCfg, agg: &Mutex<Agg>, seeds: &[u64]) {
                             format!("C16:panic:{}", f.get(2).and_then(|k| k.parse::<usize>().ok()).map_or("?", |k| ROLE_NAMES[k])),
                             format!("{desc}: {line}"),
                         ),
+                        "build_ns" => {
+                            let mut b = build_ns.lock().unwrap();
+                            for (t, v) in line["build_ns ".len()..].split(',').enumerate().take(5) {
+                                if let Ok(ns) = v.parse::<u64>() {
+                                    // only initialisations seen from start to end, within reason
+                                    if ns > 0 && ns < 50_000_000 {
+                                        b[t].push(ns);
+                                    }
+                                }
+                            }
+                        }
                         "events" => {
                             let sig = check_events(line.strip_prefix("events ").unwrap_or(""), &mut out, &desc);
                             if let Some(first) = sig.get(0..2) {
@@ -1052,6 +1185,11 @@ fn run_schedules(cfg: &RunCfg, agg: &Mutex<Agg>, seeds: &[u64]) {
                     out.inconclusive.push(format!("{desc}: child reported {seen_roles} of {} roles", sched.len()));
                 }
                 out.tag(format!("threads:{}", sched.len()));
+                out.tag(match burst_mode(seed) {
+                    Burst::Staggered => "schedule:staggered".to_string(),
+                    Burst::Random { .. } => "schedule:burst".to_string(),
+                    Burst::Aimed { table, .. } => format!("schedule:burst-aimed-at-end-of-{}", T_NAMES[table as usize]),
+                });
                 if sched.len() >= 2 {
                     out.nontrivial_key(&desc);
                 }
